@@ -26,7 +26,13 @@ def run(chk):
                "dimension is out of reach")
 
     def extra_pow(choice, sig):
-        return [{"alpha": a} for a in ALPHAS]
+        out = [{"alpha": a} for a in ALPHAS]
+        # 'power -1 equals the inverse ... for every admissible algorithm object': the generic rule translates the algorithm for inv
+        if choice[0][1] == "LinearOperator":
+            from cola.linalg.decompositions.decompositions import Arnoldi, Lanczos
+            from cola.linalg.unary.unary import Eig, Eigh
+            out += [{"alpha": -1, "alg_cls": c, "algname": c.__name__} for c in (Lanczos, Arnoldi, Eig, Eigh)]
+        return out
 
     def extra_unary(choice, sig):
         return [{"f": symfns.exp, "fname": "exp"}, {"f": opaque_f, "fname": "user-f"}]
